@@ -42,11 +42,24 @@ class _Base(Component):
             else:
                 add_resource(object(), name, types=[self.marker])
 
-    async def prepare(self) -> None:
-        self._publish(TABLE.get(self.n, {}).get("prepare_adds", []))
+    # prepare()/start() are plain methods returning a coroutine (what a method wrapped by an ordinary synchronous
+    # decorator looks like); every third instance publishes already when the method is *called*, before the
+    # coroutine is awaited - that, too, is "added in start()" / "added in prepare()"
+    def prepare(self) -> Any:
+        return self._lifecycle(TABLE.get(self.n, {}).get("prepare_adds", []))
 
-    async def start(self) -> None:
-        self._publish(TABLE.get(self.n, {}).get("start_adds", []))
+    def start(self) -> Any:
+        return self._lifecycle(TABLE.get(self.n, {}).get("start_adds", []))
+
+    def _lifecycle(self, names: list[str]) -> Any:
+        if self.idx % 3 == 1:
+            self._publish(names)
+            names = []
+
+        async def run() -> None:
+            self._publish(names)
+
+        return run()
 
 
 K0 = type("K0", (_Base,), {"n": 0})
